@@ -1042,6 +1042,10 @@ static int vc_motion(int cmd)
 	}
 	if (mv < 0)
 		return 0;
+	/* like space, l cut short by the end of the line covers the last character */
+	if (mv == 'l' && o2 >= o1 && o2 + 1 == lbuf_eol(xb, r2) &&
+			o2 - o1 < (vi_arg1 ? vi_arg1 : 1) * (vi_arg2 ? vi_arg2 : 1))
+		o2++;
 	lnmode = o2 < 0;
 	if (lnmode) {
 		o1 = 0;
